@@ -39,6 +39,10 @@ def relation_holds(base, var):
     """the metamorphic relation between the base run and a variant, on the observed results"""
     b, v = base["result"], var["result"]
     what = var["variant"].split(":")[0]
+    if base.get("ordered"):
+        # the ORDER BY of these statements is a total order over the result: the row SEQUENCE must be the same in every
+        # configuration, repetition, renaming, partition of the data and clause order
+        return b["kind"] == "ok" and v["kind"] == "ok" and b.get("seq") == v.get("seq")
     if b["kind"] != "ok" or v["kind"] != "ok":
         if what == "superset":
             return b["kind"] != "ok" or v["kind"] == "ok" or True  # errors are compared by the model correspondence
@@ -62,7 +66,9 @@ def run(ctx):
     ctx.add_obligations(vcheck.coq_props("Planner", "C14"))
     ctx.cov["checker_cmd"] = ("coqc -Q coq/Planner BWPlanner coq/Planner/Props/C14.v; h_query -mode gen -family c14 "
                               "(each query under chan {0,1,16} x bulk {1,2,1000} x GOMAXPROCS {1,4}, 3 repetitions, renaming, "
-                              "2- and 3-way data partitions, a data superset, all clause permutations)")
+                              "2- and 3-way data partitions (random and adversarial round-robin in every rotation), a data superset, all "
+                              "clause permutations; every 4th query has an ORDER BY that is a total order over sub-second-distinct anchors "
+                              "and its row SEQUENCE is compared exactly across all variants)")
     env = pc.probe()
     findings = pc.open_findings("C14")
     n = 400 if ctx.tier == "thorough" else 45
@@ -123,7 +129,7 @@ def run(ctx):
     ctx.cov["rule"] = ("evaluations = executions of planner.Execute (base queries and all their variants); distinct_nontrivial = base "
                        "(statement, data) pairs with at least one result row, each compared with all its variants")
     ctx.cov["samples"] = [{"query": r["query"], "variant": r["variant"], "rows": len(r["result"].get("rows") or [])} for r in rows[:3]]
-    ctx.cov["distribution"] = {"queries": len(groups), "relations_checked": dict(rel_checked), "modelled": len(ev),
+    ctx.cov["distribution"] = {"queries": len(groups), "ordered_total_order_queries": sum(1 for g, rs in groups.items() if rs[0].get("ordered")), "relations_checked": dict(rel_checked), "modelled": len(ev),
                                "meets_spec": sum(1 for v in verd if v[1] == 2), "inside_D3": sum(1 for v in verd if v[4] == 1),
                                "relations_failing_by_finding": dict(excused),
                                "with_optional": sum(1 for g, rs in groups.items() if rs[0].get("has_optional"))}
